@@ -8,14 +8,20 @@
                       shape (container defaults, tagged enums, per-field defaults) as toT/fromT/resetFields
   Gen/Tables.lean     CRC parameters named by CRC_8_FLAC / CRC_16_FLAC (crc-catalog in the cargo registry),
                       FIXED_LPC_COEFS of decode.rs
+  Gen/Headers.lean    the frame-header code functions of src/component/datatype.rs (BlockSizeSpec, SampleSizeSpec,
+                      SampleRateSpec, ChannelAssignment: enums, `match` tables, discriminants) and the
+                      ChannelAssignment writer of bitrepr.rs, parsed and mirrored arm by arm (part `headers`)
 
 It accepts a deliberately tiny Rust subset and FAILS CLOSED: any construct it does not recognise inside
 a translated item aborts with "translator cannot read <item>" (exit 1) — it never guesses.
 """
 import os, re, struct, sys, glob
 
-REPO = os.environ.get("VERIF_REPO", "/repo")
-ROOT = os.path.dirname(os.path.dirname(os.path.abspath(__file__)))
+# FV_REPO (or the older VERIF_REPO) = root of the Rust crate to read; FV_ROOT = root of the verification
+# tree to write into (lean/FlacVerif/Gen/*.lean, .cache/translate_status.json). Defaults: /repo and the
+# parent directory of this script's directory.
+REPO = os.environ.get("FV_REPO") or os.environ.get("VERIF_REPO") or "/repo"
+ROOT = os.environ.get("FV_ROOT") or os.path.dirname(os.path.dirname(os.path.abspath(__file__)))
 OUT = os.path.join(ROOT, "lean", "FlacVerif", "Gen")
 
 
@@ -875,6 +881,1584 @@ def emit_tables():
     return "\n".join(L)
 
 
+# ------------------------------------------------------------------ headers (datatype.rs, bitrepr.rs)
+#
+# Part `headers`: the frame-header code tables.  The enums `ChannelAssignment`, `BlockSizeSpec`,
+# `SampleSizeSpec`, `SampleRateSpec` of src/component/datatype.rs and the functions listed in HDR_SPEC
+# are PARSED (lexer -> recursive-descent parser for a Rust expression subset -> typed translation) and
+# mirrored arm by arm, in source order, in Gen/Headers.lean.  Nothing about the table contents is known
+# to this file: literals, arm order, guards, variant names, payload types and discriminants all come from
+# the source text.  Any token, item, statement, pattern or expression shape that is not understood
+# raises `fail("datatype.rs: ...")`.
+
+HDR_BITS = {"u8": 8, "u16": 16, "u32": 32, "u64": 64, "usize": int(os.environ.get("FV_USIZE_BITS", "64"))}
+
+# (file, trait or None, type or None (free fn), [functions that MUST be translated])
+HDR_SPEC = [
+    ("datatype.rs", None, None, ["ilog2"]),
+    ("datatype.rs", None, "ChannelAssignment", ["from_tag", "bits_per_sample_offset", "channels"]),
+    ("datatype.rs", None, "BlockSizeSpec", ["from_size", "count_extra_bits", "block_size", "tag", "write_extra_bits"]),
+    ("datatype.rs", None, "SampleSizeSpec", ["from_tag", "into_tag", "from_bits", "into_bits"]),
+    ("datatype.rs", None, "SampleRateSpec", ["from_freq", "from_tag_and_data", "count_extra_bits", "tag", "write_extra_bits"]),
+    ("bitrepr.rs", "BitRepr", "ChannelAssignment", ["count_bits", "write"]),
+]
+HDR_ENUMS = ["ChannelAssignment", "BlockSizeSpec", "SampleSizeSpec", "SampleRateSpec"]
+
+
+def hdr_lex(src, where):
+    """Rust lexer (comments, string/char literals, lifetimes, numbers, identifiers, punctuation)."""
+    toks = []
+    i, n = 0, len(src)
+    p3 = ("..=", "<<=", ">>=", "...")
+    p2 = ("::", "->", "=>", "==", "!=", "<=", ">=", "&&", "||", "<<", ">>", "..", "+=", "-=", "*=", "/=", "%=", "|=", "&=", "^=")
+    raw_re = re.compile(r'b?r(#*)"')
+    chr_re = re.compile(r"'(\\(?:u\{[0-9a-fA-F_]+\}|x[0-9a-fA-F]{2}|.)|[^\\'])'", re.S)
+    life_re = re.compile(r"'[A-Za-z_][A-Za-z0-9_]*")
+    id_re = re.compile(r"[A-Za-z_][A-Za-z0-9_]*")
+    num_re = re.compile(r"\d[0-9A-Za-z_]*(?:\.\d[0-9A-Za-z_]*)?")
+    while i < n:
+        c = src[i]
+        if c.isspace():
+            i += 1
+            continue
+        if src.startswith("//", i):
+            j = src.find("\n", i)
+            i = n if j < 0 else j
+            continue
+        if src.startswith("/*", i):
+            d, i = 1, i + 2
+            while i < n and d:
+                if src.startswith("/*", i):
+                    d, i = d + 1, i + 2
+                elif src.startswith("*/", i):
+                    d, i = d - 1, i + 2
+                else:
+                    i += 1
+            if d:
+                fail(f"{where}: unterminated block comment")
+            continue
+        m = raw_re.match(src, i)
+        if m:
+            close = '"' + m.group(1)
+            j = src.find(close, m.end())
+            if j < 0:
+                fail(f"{where}: unterminated raw string")
+            toks.append('"<raw>"')
+            i = j + len(close)
+            continue
+        if c == '"' or (c == "b" and src[i + 1:i + 2] == '"'):
+            j = i + (2 if c == "b" else 1)
+            while j < n and src[j] != '"':
+                j += 2 if src[j] == "\\" else 1
+            if j >= n:
+                fail(f"{where}: unterminated string literal")
+            toks.append(src[i:j + 1])
+            i = j + 1
+            continue
+        if c == "'" or (c == "b" and src[i + 1:i + 2] == "'"):
+            k = i + (1 if c == "b" else 0)
+            m = chr_re.match(src, k)
+            if m:
+                toks.append(m.group(0))
+                i = m.end()
+                continue
+            m = life_re.match(src, k)
+            if m and c == "'":
+                toks.append(m.group(0))
+                i = m.end()
+                continue
+            fail(f"{where}: cannot lex quote at offset {i}")
+        m = id_re.match(src, i)
+        if m:
+            toks.append(m.group(0))
+            i = m.end()
+            continue
+        m = num_re.match(src, i)
+        if m:
+            toks.append(m.group(0))
+            i = m.end()
+            continue
+        for ps in (p3, p2):
+            for p in ps:
+                if src.startswith(p, i):
+                    toks.append(p)
+                    i += len(p)
+                    break
+            else:
+                continue
+            break
+        else:
+            if c in "{}()[];:=+-*/%<>&!,.#|?^@$~":
+                toks.append(c)
+                i += 1
+            else:
+                fail(f"{where}: cannot lex character {c!r} at offset {i}")
+    return toks
+
+
+def hdr_int_literal(t, where):
+    m = re.fullmatch(r"(0x[0-9A-Fa-f_]+|0b[01_]+|0o[0-7_]+|\d[\d_]*)(usize|u8|u16|u32|u64|i8|i16|i32|i64|isize)?", t)
+    if not m:
+        fail(f"{where}: numeric literal {t!r}")
+    if m.group(2) is not None and m.group(2) not in HDR_BITS:
+        fail(f"{where}: signed literal {t!r}")
+    return int(m.group(1).replace("_", ""), 0), m.group(2)
+
+
+class HdrItems:
+    """Index of the top-level items of one file: enums, impl blocks, free functions."""
+
+    def __init__(self, fname, toks):
+        self.fname = fname
+        self.toks = toks
+        self.enums = {}    # name -> [(variant, [payload type], discriminant | None)]
+        self.impls = {}    # (trait | None, type) -> {fn name -> fn record}
+        self.fns = {}      # free functions
+        self.scan()
+
+    def group_end(self, i):
+        """toks[i] opens a bracket; index after its matching close."""
+        t = self.toks
+        pairs = {"(": ")", "[": "]", "{": "}"}
+        stack = []
+        while i < len(t):
+            if t[i] in pairs:
+                stack.append(pairs[t[i]])
+            elif t[i] in pairs.values():
+                if not stack or stack.pop() != t[i]:
+                    fail(f"{self.fname}: unbalanced bracket {t[i]!r}")
+                if not stack:
+                    return i + 1
+            i += 1
+        fail(f"{self.fname}: unbalanced brackets")
+
+    def scan(self):
+        t = self.toks
+        i = 0
+        attrs = []
+        while i < len(t):
+            x = t[i]
+            if x == "#" and t[i + 1:i + 2] == ["["]:
+                j = self.group_end(i + 1)
+                attrs.append("".join(t[i:j]))
+                i = j
+                continue
+            if x == "#" and t[i + 1:i + 3] == ["!", "["]:
+                i = self.group_end(i + 2)
+                continue
+            if x == "enum" and t[i + 1] in HDR_ENUMS:
+                name = t[i + 1]
+                if t[i + 2] != "{":
+                    fail(f"{self.fname}: enum {name}: generic or unexpected header")
+                end = self.group_end(i + 2)
+                if name in HDR_ENUMS:
+                    self.enums[name] = self.parse_enum(name, i + 3, end - 1)
+                i, attrs = end, []
+                continue
+            if x == "impl":
+                j = i + 1
+                while t[j] != "{":
+                    if t[j] == ";":
+                        fail(f"{self.fname}: impl header")
+                    j = self.group_end(j) if t[j] in ("(", "[") else j + 1
+                head = t[i + 1:j]
+                end = self.group_end(j)
+                key = None
+                if len(head) == 1:
+                    key = (None, head[0])
+                elif len(head) == 3 and head[1] == "for":
+                    key = (head[0], head[2])
+                if key is not None:
+                    if key in self.impls:
+                        # several inherent impl blocks: merge
+                        self.scan_fns(j + 1, end - 1, self.impls[key], f"impl {' '.join(head)}")
+                    else:
+                        self.impls[key] = {}
+                        self.scan_fns(j + 1, end - 1, self.impls[key], f"impl {' '.join(head)}")
+                i, attrs = end, []
+                continue
+            if x == "fn":
+                rec, i = self.parse_fn(i, attrs, "")
+                self.fns[rec["name"]] = rec
+                attrs = []
+                continue
+            if x in ("{", "(", "["):
+                i = self.group_end(i)
+                if x == "{":
+                    attrs = []
+                continue
+            if x == ";":
+                attrs = []
+            i += 1
+
+    def parse_enum(self, name, i, end):
+        t = self.toks
+        out = []
+        nxt = 0
+        while i < end:
+            if t[i] == "#":
+                i = self.group_end(i + 1)
+                continue
+            v = t[i]
+            if not re.fullmatch(r"[A-Za-z_][A-Za-z0-9_]*", v):
+                fail(f"{self.fname}: enum {name}: variant name {v!r}")
+            i += 1
+            payload = []
+            disc = None
+            if i < end and t[i] == "(":
+                j = self.group_end(i)
+                inner = t[i + 1:j - 1]
+                cur = []
+                for z in inner + [","]:
+                    if z == ",":
+                        if cur:
+                            if len(cur) != 1 or cur[0] not in HDR_BITS:
+                                fail(f"{self.fname}: enum {name}::{v}: payload type {' '.join(cur)!r}")
+                            payload.append(cur[0])
+                        cur = []
+                    else:
+                        cur.append(z)
+                i = j
+            elif i < end and t[i] == "{":
+                fail(f"{self.fname}: enum {name}::{v}: struct-like variant")
+            if i < end and t[i] == "=":
+                val, suf = hdr_int_literal(t[i + 1], f"{self.fname}: enum {name}::{v} discriminant")
+                disc = val
+                i += 2
+            if disc is None:
+                disc = nxt
+                explicit = False
+            else:
+                explicit = True
+            nxt = disc + 1
+            out.append((v, payload, disc, explicit))
+            if i < end:
+                if t[i] != ",":
+                    fail(f"{self.fname}: enum {name}: expected `,` after {v}, found {t[i]!r}")
+                i += 1
+        if len({v for v, _, _, _ in out}) != len(out):
+            fail(f"{self.fname}: enum {name}: duplicate variant")
+        return out
+
+    def scan_fns(self, i, end, dest, where):
+        t = self.toks
+        attrs = []
+        while i < end:
+            x = t[i]
+            if x == "#" and t[i + 1] == "[":
+                j = self.group_end(i + 1)
+                attrs.append("".join(t[i:j]))
+                i = j
+                continue
+            if x == "fn":
+                rec, i = self.parse_fn(i, attrs, where)
+                if rec["name"] in dest:
+                    fail(f"{self.fname}: {where}: duplicate fn {rec['name']}")
+                dest[rec["name"]] = rec
+                attrs = []
+                continue
+            if x in ("{", "(", "["):
+                i = self.group_end(i)
+                continue
+            if x == ";":
+                attrs = []
+            i += 1
+
+    def parse_fn(self, i, attrs, where):
+        t = self.toks
+        name = t[i + 1]
+        j = i + 2
+        generics = []
+        if t[j] == "<":
+            d = 0
+            while True:
+                if t[j] == "<":
+                    d += 1
+                elif t[j] == ">":
+                    d -= 1
+                elif t[j] == ">>":
+                    d -= 2
+                generics.append(t[j])
+                j += 1
+                if d <= 0:
+                    break
+        if t[j] != "(":
+            fail(f"{self.fname}: {where} fn {name}: parameter list")
+        pe = self.group_end(j)
+        ptoks = t[j + 1:pe - 1]
+        params = []
+        cur, d = [], 0
+        for z in ptoks + [","]:
+            if z in ("(", "[", "{", "<"):
+                d += 1
+            elif z in (")", "]", "}", ">"):
+                d -= 1
+            elif z == ">>":
+                d -= 2
+            if z == "," and d == 0:
+                if cur:
+                    params.append(cur)
+                cur = []
+            else:
+                cur.append(z)
+        j = pe
+        ret = []
+        if t[j] == "->":
+            j += 1
+            while t[j] not in ("{", "where", ";"):
+                ret.append(t[j])
+                j += 1
+        if t[j] == "where":
+            while t[j] not in ("{", ";"):
+                j += 1
+        if t[j] == ";":
+            return {"name": name, "params": params, "ret": ret, "body": None, "attrs": list(attrs), "generics": generics}, j + 1
+        be = self.group_end(j)
+        return {"name": name, "params": params, "ret": ret, "body": (j, be), "attrs": list(attrs), "generics": generics}, be
+
+
+# ---- expression parser (Rust subset) -> AST of tuples
+
+HDR_BINOPS = [["||"], ["&&"], ["==", "!=", "<", ">", "<=", ">="], ["|"], ["^"], ["&"], ["<<", ">>"], ["+", "-"], ["*", "/", "%"]]
+HDR_KEYWORDS = {"match", "if", "else", "let", "return", "fn", "for", "while", "loop", "as", "mut", "ref", "move", "in",
+                "break", "continue", "struct", "enum", "impl", "use", "unsafe", "where", "pub", "const", "static", "dyn", "type"}
+
+
+class HdrParser:
+    def __init__(self, toks, lo, hi, where):
+        self.t = toks
+        self.p = lo
+        self.hi = hi
+        self.where = where
+
+    def err(self, msg):
+        ctx = " ".join(self.t[max(self.p - 5, 0):min(self.p + 6, self.hi)])
+        fail(f"{self.where}: {msg} (near `{ctx}`)")
+
+    def peek(self, k=0):
+        return self.t[self.p + k] if self.p + k < self.hi else None
+
+    def eat(self, x):
+        if self.peek() != x:
+            self.err(f"expected {x!r}, found {self.peek()!r}")
+        self.p += 1
+
+    def skip_attrs(self):
+        # only lint / formatting attributes may be ignored inside a body; `#[cfg(..)]` on a statement or a match
+        # arm would make the arm conditional, which this translator does not model
+        while self.peek() == "#" and self.peek(1) == "[":
+            if self.peek(2) not in ("allow", "expect", "warn", "deny", "inline", "rustfmt", "doc", "must_use"):
+                self.err(f"attribute #[{self.peek(2)}..] inside a function body")
+            d = 0
+            self.p += 1
+            while True:
+                if self.peek() == "[":
+                    d += 1
+                elif self.peek() == "]":
+                    d -= 1
+                elif self.peek() is None:
+                    self.err("attribute")
+                self.p += 1
+                if d == 0:
+                    break
+
+    def is_ident(self, x):
+        return x is not None and re.fullmatch(r"[A-Za-z_][A-Za-z0-9_]*", x) is not None and x not in HDR_KEYWORDS
+
+    # block := { stmt* tail? }   -> ("block", [stmt], tail | None); stmt = expression (value discarded)
+    def block(self):
+        self.eat("{")
+        stmts = []
+        tail = None
+        while True:
+            self.skip_attrs()
+            if self.peek() == "}":
+                self.p += 1
+                break
+            if self.peek() == "let":
+                self.err("`let` statement")
+            if self.peek() == ";":
+                self.p += 1
+                continue
+            e = self.expr()
+            if self.peek() == ";":
+                self.p += 1
+                stmts.append(e)
+            elif self.peek() == "}":
+                tail = e
+            elif e[0] in ("if", "iflet", "match", "block"):
+                stmts.append(e)   # block-like expression statement
+            else:
+                self.err(f"expected `;` or `}}` after expression, found {self.peek()!r}")
+        return ("block", stmts, tail)
+
+    def expr(self, level=0):
+        if level == len(HDR_BINOPS):
+            return self.cast()
+        l = self.expr(level + 1)
+        while self.peek() in HDR_BINOPS[level]:
+            op = self.peek()
+            self.p += 1
+            r = self.expr(level + 1)
+            if level == 2 and self.peek() in HDR_BINOPS[2]:
+                self.err("chained comparison")
+            l = ("bin", op, l, r)
+        return l
+
+    def cast(self):
+        e = self.unary()
+        while self.peek() == "as":
+            self.p += 1
+            ty = self.peek()
+            if ty not in HDR_BITS:
+                self.err(f"cast to unsupported type {ty!r}")
+            self.p += 1
+            e = ("cast", e, ty)
+        return e
+
+    def unary(self):
+        x = self.peek()
+        if x in ("*", "!", "-", "&"):
+            self.p += 1
+            if x == "&" and self.peek() == "mut":
+                self.p += 1
+            return ("un", x, self.unary())
+        if x == "&&":
+            self.p += 1
+            return ("un", "&", ("un", "&", self.unary()))
+        return self.postfix()
+
+    def args(self):
+        self.eat("(")
+        out = []
+        while self.peek() != ")":
+            out.append(self.expr())
+            if self.peek() == ",":
+                self.p += 1
+            elif self.peek() != ")":
+                self.err("argument list")
+        self.p += 1
+        return out
+
+    def postfix(self):
+        e = self.primary()
+        while True:
+            x = self.peek()
+            if x == "(":
+                e = ("call", e, self.args())
+            elif x == "." and self.is_ident(self.peek(1)):
+                name = self.peek(1)
+                self.p += 2
+                if self.peek() == "::":
+                    self.p += 1
+                    self.generic_args()
+                if self.peek() != "(":
+                    self.err(f"field access .{name}")
+                e = ("mcall", e, name, self.args())
+            elif x == "?":
+                self.p += 1
+                e = ("try", e)
+            else:
+                return e
+
+    def generic_args(self):
+        if self.peek() != "<":
+            self.err("generic arguments")
+        d = 0
+        while True:
+            x = self.peek()
+            if x == "<":
+                d += 1
+            elif x == ">":
+                d -= 1
+            elif x == ">>":
+                d -= 2
+            elif x is None or x in ("{", "}", ";"):
+                self.err("generic arguments")
+            self.p += 1
+            if d <= 0:
+                return
+
+    def path(self):
+        segs = [self.peek()]
+        self.p += 1
+        while self.peek() == "::":
+            self.p += 1
+            if self.peek() == "<":
+                self.generic_args()
+                continue
+            if not self.is_ident(self.peek()):
+                self.err("path segment")
+            segs.append(self.peek())
+            self.p += 1
+        return segs
+
+    def primary(self):
+        x = self.peek()
+        if x is None:
+            self.err("unexpected end of input")
+        if x == "(":
+            self.p += 1
+            if self.peek() == ")":
+                self.p += 1
+                return ("unit",)
+            e = self.expr()
+            if self.peek() == ",":
+                self.err("tuple expression")
+            self.eat(")")
+            return ("paren", e)
+        if x == "{":
+            return self.block()
+        if x == "match":
+            return self.match()
+        if x == "if":
+            return self.if_()
+        if x == "return":
+            self.p += 1
+            if self.peek() in (";", "}", ","):
+                return ("return", None)
+            return ("return", self.expr())
+        if x == "||":
+            self.p += 1
+            return ("closure", [], self.expr())
+        if x == "|":
+            self.p += 1
+            ps = []
+            while self.peek() != "|":
+                if not self.is_ident(self.peek()):
+                    self.err("closure parameter")
+                ps.append(self.peek())
+                self.p += 1
+                if self.peek() == ",":
+                    self.p += 1
+            self.p += 1
+            return ("closure", ps, self.expr())
+        if re.fullmatch(r"\d.*", x):
+            if "." in x:
+                self.err(f"float literal {x}")
+            v, suf = hdr_int_literal(x, self.where)
+            self.p += 1
+            return ("int", v, suf)
+        if x.startswith('"'):
+            self.p += 1
+            return ("str", x)
+        if x in ("true", "false"):
+            self.p += 1
+            return ("boollit", x == "true")
+        if self.is_ident(x) or x in ("Self", "self"):
+            if self.peek(1) == "!":
+                if self.peek(2) != "(":
+                    self.err(f"macro {x}!")
+                self.p += 2
+                d = 0
+                start = self.p
+                while True:
+                    if self.peek() == "(":
+                        d += 1
+                    elif self.peek() == ")":
+                        d -= 1
+                    elif self.peek() is None:
+                        self.err(f"macro {x}!")
+                    self.p += 1
+                    if d == 0:
+                        break
+                return ("macro", x, self.t[start + 1:self.p - 1])
+            segs = self.path()
+            if self.peek() == "{" and len(segs) > 1 and not self.no_struct:
+                self.err("struct literal")
+            if len(segs) == 1:
+                return ("var", segs[0])
+            return ("path", segs)
+        self.err(f"unexpected token {x!r}")
+
+    no_struct = True  # struct literals are never accepted; `{` after a path ends the expression
+
+    def pattern(self):
+        x = self.peek()
+        if x == "_":
+            self.p += 1
+            return ("wild",)
+        if x is not None and re.fullmatch(r"\d.*", x):
+            v, suf = hdr_int_literal(x, self.where)
+            self.p += 1
+            if self.peek() in ("..", "..=", "..."):
+                self.err("range pattern")
+            return ("lit", v, suf)
+        if x == "-":
+            self.err("negative literal pattern")
+        if x in ("&", "ref", "mut", "(", "["):
+            self.err(f"pattern starting with {x!r}")
+        if self.is_ident(x) or x == "Self":
+            segs = self.path()
+            if len(segs) == 1:
+                if self.peek() in ("(", "{", "@"):
+                    self.err(f"pattern {segs[0]}{self.peek()}")
+                if not re.fullmatch(r"[a-z_][a-z0-9_]*", segs[0]):
+                    self.err(f"pattern {segs[0]!r} is neither a lower-case binding nor a path")
+                return ("bind", segs[0])
+            sub = []
+            if self.peek() == "(":
+                self.p += 1
+                while self.peek() != ")":
+                    y = self.peek()
+                    if y == "_":
+                        sub.append(("wild",))
+                    elif self.is_ident(y) and re.fullmatch(r"[a-z_][a-z0-9_]*", y):
+                        sub.append(("bind", y))
+                    else:
+                        self.err(f"sub-pattern {y!r}")
+                    self.p += 1
+                    if self.peek() == ",":
+                        self.p += 1
+                    elif self.peek() != ")":
+                        self.err("sub-pattern list")
+                self.p += 1
+            elif self.peek() == "{":
+                self.err("struct pattern")
+            return ("variant", segs, sub)
+        self.err(f"pattern starting with {x!r}")
+
+    def match(self):
+        self.eat("match")
+        scrut = self.expr()
+        self.eat("{")
+        arms = []
+        while True:
+            self.skip_attrs()
+            if self.peek() == "}":
+                self.p += 1
+                break
+            if self.peek() == "|":
+                self.p += 1
+            alts = [self.pattern()]
+            while self.peek() == "|":
+                self.p += 1
+                alts.append(self.pattern())
+            guard = None
+            if self.peek() == "if":
+                self.p += 1
+                guard = self.expr()
+            self.eat("=>")
+            if self.peek() == "{":
+                body = self.block()
+                if self.peek() == ",":
+                    self.p += 1
+                elif self.peek() in (".", "?"):
+                    self.err("method call on a block arm")
+            else:
+                body = self.expr()
+                if self.peek() == ",":
+                    self.p += 1
+                elif self.peek() != "}":
+                    self.err(f"expected `,` or `}}` after match arm, found {self.peek()!r}")
+            arms.append((alts, guard, body))
+        if not arms:
+            self.err("match without arms")
+        return ("match", scrut, arms)
+
+    def if_(self):
+        self.eat("if")
+        if self.peek() == "let":
+            self.p += 1
+            pat = self.pattern()
+            if self.peek() == "|":
+                self.err("or-pattern in if-let")
+            self.eat("=")
+            scrut = self.expr()
+            then = self.block()
+            els = None
+            if self.peek() == "else":
+                self.p += 1
+                els = self.if_() if self.peek() == "if" else self.block()
+            return ("iflet", pat, scrut, then, els)
+        cond = self.expr()
+        then = self.block()
+        els = None
+        if self.peek() == "else":
+            self.p += 1
+            els = self.if_() if self.peek() == "if" else self.block()
+        return ("if", cond, then, els)
+
+
+# ---- typed translation AST -> Lean
+
+class HV:
+    """Translated value: Lean text, Rust type, exactness condition (Lean Bool text or None = true), literal value."""
+    __slots__ = ("lean", "ty", "ex", "lit")
+
+    def __init__(self, lean, ty, ex=None, lit=None):
+        self.lean, self.ty, self.ex, self.lit = lean, ty, ex, lit
+
+
+def hdr_and(*xs):
+    xs = [x for x in xs if x is not None]
+    if not xs:
+        return None
+    return xs[0] if len(xs) == 1 else "(" + " && ".join(xs) + ")"
+
+
+def hdr_indent(s, k):
+    pad = " " * k
+    return "\n".join((pad + ln if ln else ln) for ln in s.split("\n"))
+
+
+def hdr_is_int(ty):
+    return isinstance(ty, str) and ty in HDR_BITS
+
+
+class HdrTx:
+    def __init__(self, enums):
+        self.enums = enums          # name -> variants
+        self.fn_sigs = {}           # lean name of translated free fn -> (param types, ret type, has_exact)
+        self.where = ""
+        self.self_enum = None
+
+    def err(self, msg):
+        fail(f"{self.where}: {msg}")
+
+    # --- types
+    def parse_type(self, toks):
+        s = "".join(toks)
+        if s in HDR_BITS:
+            return s
+        if s == "bool":
+            return "bool"
+        if s == "Self":
+            if self.self_enum is None:
+                self.err("`Self` outside an impl of a translated enum")
+            return ("enum", self.self_enum)
+        if s in self.enums:
+            return ("enum", s)
+        m = re.fullmatch(r"Option<(.+)>", s)
+        if m:
+            return ("opt", self.parse_type([m.group(1)]))
+        if s.startswith("Result<(),") and s.endswith(">"):
+            return "writes"
+        self.err(f"unsupported type `{s}`")
+
+    def lean_type(self, ty):
+        if hdr_is_int(ty):
+            return "Nat"
+        if ty == "bool":
+            return "Bool"
+        if ty == "writes":
+            return "Writes"
+        if isinstance(ty, tuple) and ty[0] == "enum":
+            return ty[1]
+        if isinstance(ty, tuple) and ty[0] == "opt":
+            inner = self.lean_type(ty[1])
+            return f"Option {inner}" if " " not in inner else f"Option ({inner})"
+        self.err(f"no Lean type for {ty!r}")
+
+    def unify(self, a, b, what):
+        """Type of two branches; None = untyped integer literal, "any" = diverging (unreachable!)."""
+        if a == "any":
+            return b
+        if b == "any":
+            return a
+        if a is None and (b is None or hdr_is_int(b)):
+            return b
+        if b is None and hdr_is_int(a):
+            return a
+        if isinstance(a, tuple) and isinstance(b, tuple) and a[0] == "opt" and b[0] == "opt":
+            if a[1] == "unknown":
+                return b
+            if b[1] == "unknown":
+                return a
+            return ("opt", self.unify(a[1], b[1], what))
+        if a == b:
+            return a
+        self.err(f"{what}: branches of different types {a!r} / {b!r}")
+
+    def fits(self, v, ty, what):
+        if hdr_is_int(ty) and not (0 <= v < 2 ** HDR_BITS[ty]):
+            self.err(f"{what}: literal {v} does not fit {ty}")
+
+    def variant(self, segs):
+        if len(segs) != 2:
+            self.err(f"path {'::'.join(segs)}")
+        en = self.self_enum if segs[0] == "Self" else segs[0]
+        if en not in self.enums:
+            self.err(f"path {'::'.join(segs)}: not a translated enum")
+        for v, payload, disc, _ in self.enums[en]:
+            if v == segs[1]:
+                return en, v, payload
+        self.err(f"path {'::'.join(segs)}: no such variant")
+
+    # --- pure expressions
+    def tx(self, e, env, want=None, tail=False):
+        k = e[0]
+        if k == "paren":
+            return self.tx(e[1], env, want, tail)
+        if k == "int":
+            v, suf = e[1], e[2]
+            ty = suf if suf is not None else (want if hdr_is_int(want) else None)
+            if ty is not None:
+                self.fits(v, ty, "literal")
+            return HV(str(v), ty, None, v)
+        if k == "boollit":
+            return HV("True" if e[1] else "False", "bool")
+        if k == "var":
+            name = e[1]
+            if name == "None":
+                return HV("none", ("opt", "unknown"))
+            if name not in env:
+                self.err(f"unknown name `{name}`")
+            lean, ty = env[name]
+            return HV(lean, ty)
+        if k == "path":
+            en, v, payload = self.variant(e[1])
+            if payload:
+                return HV(f"{en}.{v}", ("ctor", en, v, tuple(payload)))
+            return HV(f"{en}.{v}", ("enum", en))
+        if k == "un":
+            if e[1] == "*":
+                inner = self.tx(e[2], env, want)
+                return inner   # references are transparent: `*self`, `*n`
+            if e[1] == "!":
+                inner = self.tx(e[2], env)
+                if inner.ty != "bool":
+                    self.err("`!` on a non-boolean")
+                return HV(f"(¬ {inner.lean})", "bool", inner.ex)
+            self.err(f"unary `{e[1]}`")
+        if k == "cast":
+            return self.tx_cast(e, env)
+        if k == "bin":
+            return self.tx_bin(e, env, want)
+        if k == "call":
+            return self.tx_call(e, env, want, tail)
+        if k == "mcall":
+            return self.tx_mcall(e, env, want)
+        if k == "match":
+            return self.tx_match(e, env, want, tail)
+        if k == "if":
+            return self.tx_if(e, env, want, tail)
+        if k == "iflet":
+            return self.tx_iflet(e, env, want, tail)
+        if k == "block":
+            return self.tx_block(e, env, want, tail)
+        if k == "try":
+            if e[1][0] == "var" and ("?", e[1][1]) in env:
+                lean, ty = env[("?", e[1][1])]
+                return HV(lean, ty)
+            self.err("`?` in an unsupported position")
+        if k == "macro":
+            if e[1] == "unreachable" and all(t.startswith('"') or t == "," for t in e[2]):
+                # a panic site: the value is irrelevant, exactness is false
+                return HV("default", "any", "false")
+            self.err(f"macro {e[1]}!")
+        if k == "return":
+            self.err("`return` in an unsupported position")
+        if k == "closure":
+            self.err("closure in an unsupported position")
+        self.err(f"expression kind `{k}`")
+
+    def tx_cast(self, e, env):
+        inner = self.tx(e[1], env)
+        T = e[2]
+        w = HDR_BITS[T]
+        if inner.ty is None:
+            if inner.lit is None:
+                self.err("cast of an untyped expression")
+            self.fits(inner.lit, T, "cast")
+            return HV(inner.lean, T, inner.ex, inner.lit)
+        if hdr_is_int(inner.ty):
+            if HDR_BITS[inner.ty] > w:
+                return HV(f"({inner.lean} % {2 ** w})", T, inner.ex)   # `as` truncates silently
+            return HV(inner.lean, T, inner.ex)
+        if isinstance(inner.ty, tuple) and inner.ty[0] == "enum":
+            en = inner.ty[1]
+            vs = self.enums[en]
+            if any(p for _, p, _, _ in vs):
+                self.err(f"cast of enum {en} with payload variants")
+            if max(d for _, _, d, _ in vs) >= 2 ** w:
+                self.err(f"cast of enum {en}: discriminant does not fit {T}")
+            return HV(f"({en}.discriminant {inner.lean})", T, inner.ex)
+        self.err(f"cast from {inner.ty!r}")
+
+    def tx_bin(self, e, env, want):
+        op = e[1]
+        if op in ("&&", "||"):
+            l, r = self.tx(e[2], env), self.tx(e[3], env)
+            if l.ty != "bool" or r.ty != "bool":
+                self.err(f"`{op}` on non-booleans")
+            if r.ex is not None:
+                self.err(f"arithmetic that may overflow on the right of `{op}`")
+            return HV(f"({l.lean} {'∧' if op == '&&' else '∨'} {r.lean})", "bool", l.ex)
+        cmp_ = op in ("==", "!=", "<", ">", "<=", ">=")
+        l = self.tx(e[2], env, None if cmp_ else want)
+        r = self.tx(e[3], env, None if (cmp_ or op in ("<<", ">>")) else want)
+        for z in (l, r):
+            if not (z.ty is None or hdr_is_int(z.ty)):
+                if cmp_ and op in ("==", "!=") and l.ty == r.ty == "bool":
+                    break
+                self.err(f"operand of `{op}` is not an integer ({z.ty!r})")
+        if op in ("<<", ">>"):
+            ty = l.ty if l.ty is not None else (want if hdr_is_int(want) else None)
+            if r.ty is None and r.lit is None:
+                self.err("shift amount of unknown type")
+        else:
+            if l.ty is None and r.ty is None:
+                ty = None if cmp_ else (want if hdr_is_int(want) else None)
+            elif l.ty is None:
+                ty = r.ty
+            elif r.ty is None:
+                ty = l.ty
+            elif l.ty != r.ty:
+                self.err(f"`{op}` on different integer types {l.ty} / {r.ty}")
+            else:
+                ty = l.ty
+            for z in (l, r):
+                if z.ty is None and ty is not None:
+                    if z.lit is None:
+                        self.err(f"untyped operand of `{op}`")
+                    self.fits(z.lit, ty, f"operand of `{op}`")
+        ex = hdr_and(l.ex, r.ex)
+        if cmp_:
+            sym = {"==": "=", "!=": "≠", "<": "<", ">": ">", "<=": "≤", ">=": "≥"}[op]
+            return HV(f"({l.lean} {sym} {r.lean})", "bool", ex)
+        if ty is None:
+            self.err(f"cannot infer the integer type of `{l.lean} {op} {r.lean}`")
+        w = HDR_BITS[ty]
+        if l.ty is None and op in ("<<", ">>"):
+            self.fits(l.lit, ty, "shifted literal")
+        if op == "+":
+            return HV(f"({l.lean} + {r.lean})", ty, hdr_and(ex, f"decide ({l.lean} + {r.lean} < {2 ** w})"))
+        if op == "-":
+            return HV(f"({l.lean} - {r.lean})", ty, hdr_and(ex, f"decide ({r.lean} ≤ {l.lean})"))
+        if op == "*":
+            return HV(f"({l.lean} * {r.lean})", ty, hdr_and(ex, f"decide ({l.lean} * {r.lean} < {2 ** w})"))
+        if op in ("/", "%"):
+            if r.lit is not None:
+                if r.lit == 0:
+                    self.err("division by the literal 0")
+                c = None
+            else:
+                c = f"decide ({r.lean} ≠ 0)"
+            return HV(f"({l.lean} {op} {r.lean})", ty, hdr_and(ex, c))
+        if op == "<<":
+            return HV(f"({l.lean} <<< {r.lean})", ty,
+                      hdr_and(ex, f"decide ({r.lean} < {w})", f"decide ({l.lean} <<< {r.lean} < {2 ** w})"))
+        if op == ">>":
+            return HV(f"({l.lean} >>> {r.lean})", ty, hdr_and(ex, f"decide ({r.lean} < {w})"))
+        if op in ("|", "&", "^"):
+            sym = {"|": "|||", "&": "&&&", "^": "^^^"}[op]
+            return HV(f"({l.lean} {sym} {r.lean})", ty, ex)
+        self.err(f"operator `{op}`")
+
+    def tx_call(self, e, env, want, tail):
+        callee, args = e[1], e[2]
+        if callee[0] == "var" and callee[1] == "Some":
+            if len(args) != 1:
+                self.err("Some(..) arity")
+            inner_want = want[1] if isinstance(want, tuple) and want[0] == "opt" else None
+            if self.has_try(args[0]):
+                # `Some(match .. { p => f(x?) , .. })` in tail position: the `?` returns None from the function,
+                # i.e. the arm's value is `x.bind (fun x' => some (f x'))`; `Some` is distributed over the arms.
+                if not tail:
+                    self.err("`?` inside Some(..) that is not the function's final value")
+                inner = args[0]
+                while inner[0] == "paren":
+                    inner = inner[1]
+                if inner[0] != "match":
+                    self.err("`?` inside Some(..) whose argument is not a match")
+                return self.tx_match(inner, env, inner_want, False, wrap_some=True)
+            a = self.tx(args[0], env, inner_want)
+            return HV(f"(some {a.lean})", ("opt", a.ty), a.ex)
+        if callee[0] == "path" and len(callee[1]) == 2 and callee[1][0] in HDR_BITS and callee[1][1] == "from":
+            T = callee[1][0]
+            if len(args) != 1:
+                self.err(f"{T}::from arity")
+            a = self.tx(args[0], env)
+            if not hdr_is_int(a.ty) or HDR_BITS[a.ty] > HDR_BITS[T]:
+                self.err(f"{T}::from of {a.ty!r}")
+            return HV(a.lean, T, a.ex)
+        if callee[0] == "path":
+            en, v, payload = self.variant(callee[1])
+            if len(args) != len(payload) or not payload:
+                self.err(f"{en}::{v}: constructor arity")
+            outs = []
+            for a, pt in zip(args, payload):
+                x = self.tx(a, env, pt)
+                if x.ty is None:
+                    if x.lit is None:
+                        self.err(f"{en}::{v}: untyped argument")
+                    self.fits(x.lit, pt, f"{en}::{v}")
+                elif x.ty != pt:
+                    self.err(f"{en}::{v}: argument of type {x.ty!r}, payload is {pt}")
+                outs.append(x)
+            return HV(f"({en}.{v} " + " ".join(x.lean for x in outs) + ")", ("enum", en), hdr_and(*[x.ex for x in outs]))
+        if callee[0] == "var" and callee[1] in self.fn_sigs:
+            ptys, rty, has_exact = self.fn_sigs[callee[1]]
+            if len(args) != len(ptys):
+                self.err(f"{callee[1]}: arity")
+            outs = []
+            for a, pt in zip(args, ptys):
+                x = self.tx(a, env, pt)
+                if x.ty is None and x.lit is not None:
+                    self.fits(x.lit, pt, callee[1])
+                elif x.ty != pt:
+                    self.err(f"{callee[1]}: argument of type {x.ty!r}, parameter is {pt!r}")
+                outs.append(x)
+            al = " ".join(x.lean for x in outs)
+            ex = hdr_and(*[x.ex for x in outs], f"{callee[1]}_exact {al}" if has_exact else None)
+            return HV(f"({callee[1]} {al})", rty, ex)
+        self.err(f"call of `{'::'.join(callee[1]) if callee[0] == 'path' else callee[1] if callee[0] == 'var' else callee[0]}`")
+
+    def has_try(self, e):
+        if isinstance(e, tuple):
+            if e and e[0] == "try":
+                return True
+            return any(self.has_try(x) for x in e)
+        if isinstance(e, list):
+            return any(self.has_try(x) for x in e)
+        return False
+
+    def closure0(self, e, env, want=None):
+        if e[0] != "closure" or e[1]:
+            self.err("expected a closure without parameters")
+        return self.tx(e[2], env, want)
+
+    def tx_mcall(self, e, env, want):
+        recv, name, args = e[1], e[2], e[3]
+        if name == "or_else" and len(args) == 1:
+            r = self.tx(recv, env, want)
+            if not (isinstance(r.ty, tuple) and r.ty[0] == "opt"):
+                self.err(".or_else on a non-Option")
+            b = self.closure0(args[0], env, r.ty)
+            ty = self.unify(r.ty, b.ty, ".or_else")
+            ex = r.ex
+            if b.ex is not None:
+                ex = hdr_and(r.ex, f"(match {r.lean} with | none => {b.ex} | some _ => true)")
+            return HV(f"(orElse {r.lean}\n  (fun _ => {b.lean}))", ty, ex)
+        if name == "then" and len(args) == 1:
+            r = self.tx(recv, env)
+            if r.ty != "bool":
+                self.err(".then on a non-boolean")
+            b = self.closure0(args[0], env)
+            ex = r.ex
+            if b.ex is not None:
+                ex = hdr_and(r.ex, f"(if {r.lean} then {b.ex} else true)")
+            return HV(f"(boolThen (decide {r.lean}) (fun _ => {b.lean}))", ("opt", b.ty), ex)
+        if name == "flatten" and not args:
+            r = self.tx(recv, env)
+            if not (isinstance(r.ty, tuple) and r.ty[0] == "opt" and isinstance(r.ty[1], tuple) and r.ty[1][0] == "opt"):
+                self.err(".flatten on something that is not an Option<Option<_>>")
+            return HV(f"(flatten {r.lean})", r.ty[1], r.ex)
+        if name == "map" and len(args) == 1:
+            # only `<int>.try_into().ok().map(Self::Variant)`: the target integer type is the variant's payload type
+            inner = recv
+            if not (inner[0] == "mcall" and inner[2] == "ok" and not inner[3] and inner[1][0] == "mcall"
+                    and inner[1][2] == "try_into" and not inner[1][3]):
+                self.err(".map on something other than `.try_into().ok()`")
+            src = self.tx(inner[1][1], env)
+            if not hdr_is_int(src.ty):
+                self.err(".try_into() on a non-integer")
+            f = args[0]
+            if f[0] != "path":
+                self.err(".map with something other than a variant constructor")
+            en, v, payload = self.variant(f[1])
+            if len(payload) != 1:
+                self.err(f".map({en}::{v}): constructor arity")
+            return HV(f"(Option.map {en}.{v} (tryInto {HDR_BITS[payload[0]]} {src.lean}))", ("opt", ("enum", en)), src.ex)
+        if name == "leading_zeros" and not args:
+            r = self.tx(recv, env)
+            if not hdr_is_int(r.ty):
+                self.err(".leading_zeros on a non-integer")
+            return HV(f"(leadingZeros {HDR_BITS[r.ty]} {r.lean})", "u32", r.ex)
+        self.err(f"method `.{name}(..)`")
+
+    def pat_scrut(self, scrut, env):
+        s = scrut
+        while s[0] in ("paren",) or (s[0] == "un" and s[1] == "*"):
+            s = s[1] if s[0] == "paren" else s[2]
+        if s[0] != "var":
+            self.err("match/if-let scrutinee is not a variable")
+        return self.tx(s, env)
+
+    def wrap(self, body, env, want, wrap_some, tail):
+        """Arm value; with wrap_some the arm `f(x?)` becomes `x.bind (fun x' => some (f x'))`."""
+        if not wrap_some:
+            return self.tx(body, env, want, tail)
+        tries = []
+
+        def walk(e):
+            if isinstance(e, tuple):
+                if e and e[0] == "try":
+                    if e[1][0] != "var":
+                        self.err("`?` on something other than a variable")
+                    if e[1][1] not in tries:
+                        tries.append(e[1][1])
+                    return
+                for x in e:
+                    walk(x)
+            elif isinstance(e, list):
+                for x in e:
+                    walk(x)
+        walk(body)
+        env2 = dict(env)
+        for x in tries:
+            if x not in env or not (isinstance(env[x][1], tuple) and env[x][1][0] == "opt"):
+                self.err(f"`{x}?` where {x} is not an Option parameter")
+            env2[("?", x)] = (f"{x}'", env[x][1][1])
+        v = self.tx(body, env2, want)
+        lean = f"(some {v.lean})"
+        ex = v.ex
+        for x in reversed(tries):
+            lean = f"(Option.bind {env[x][0]} (fun {x}' => {lean}))"
+            if ex is not None:
+                ex = f"(match {env[x][0]} with | some {x}' => {ex} | none => true)"
+        return HV(lean, ("opt", v.ty), ex)
+
+    def tx_match(self, e, env, want, tail, wrap_some=False):
+        scrut, arms = e[1], e[2]
+        s = self.pat_scrut(scrut, env)
+        if hdr_is_int(s.ty):
+            return self.tx_match_int(s, arms, env, want, tail, wrap_some)
+        if isinstance(s.ty, tuple) and s.ty[0] == "enum":
+            return self.tx_match_enum(s, arms, env, want, tail, wrap_some)
+        self.err(f"match on a value of type {s.ty!r}")
+
+    def tx_match_int(self, s, arms, env, want, tail, wrap_some):
+        rows = []   # (cond or None, HV)
+        ty = "any"
+        for idx, (alts, guard, body) in enumerate(arms):
+            if rows and rows[-1][0] is None:
+                self.err("match arm after an irrefutable arm")
+            conds = []
+            env2 = dict(env)
+            irrefutable = False
+            for a in alts:
+                if a[0] == "lit":
+                    if a[2] is not None and a[2] != s.ty:
+                        self.err(f"literal pattern of type {a[2]} on a {s.ty}")
+                    self.fits(a[1], s.ty, "literal pattern")
+                    conds.append(f"{s.lean} = {a[1]}")
+                elif a[0] == "wild":
+                    irrefutable = True
+                elif a[0] == "bind":
+                    irrefutable = True
+                    env2[a[1]] = (s.lean, s.ty)
+                else:
+                    self.err("enum pattern in a match on an integer")
+            if irrefutable and len(alts) > 1:
+                self.err("irrefutable pattern inside an or-pattern")
+            cond = None if irrefutable else " ∨ ".join(conds)
+            if guard is not None:
+                g = self.tx(guard, env2)
+                if g.ty != "bool":
+                    self.err("match guard is not a boolean")
+                if g.ex is not None:
+                    self.err("match guard with arithmetic that may overflow")
+                cond = g.lean if cond is None else f"(({cond}) ∧ {g.lean})"
+            v = self.wrap(body, env2, want, wrap_some, tail)
+            ty = self.unify(ty, v.ty, "match")
+            rows.append((cond, v))
+        if rows[-1][0] is not None:
+            self.err("match on an integer without a final irrefutable arm")
+        return self.ite_chain(rows, ty)
+
+    def ite_chain(self, rows, ty):
+        lines = []
+        exl = []
+        any_ex = any(v.ex is not None for _, v in rows)
+        for i, (c, v) in enumerate(rows):
+            val = v.lean if "\n" not in v.lean else "\n" + hdr_indent(v.lean, 2)
+            exv = v.ex or "true"
+            if c is None:
+                lines.append(f"else {val}" if i else val)
+                exl.append(f"else {exv}" if i else exv)
+            else:
+                lines.append(f"{'else ' if i else ''}if {c} then {val}")
+                exl.append(f"{'else ' if i else ''}if {c} then {exv}")
+        lean = "(" + "\n".join(lines) + ")" if len(rows) > 1 else lines[0]
+        ex = ("(" + "\n".join(exl) + ")") if any_ex else None
+        return HV(lean, ty, ex)
+
+    def enum_pat(self, a, en):
+        """-> (lean pattern, {var: type})"""
+        if a[0] == "wild":
+            return "_", {}
+        if a[0] != "variant":
+            self.err("pattern in a match on an enum is neither a variant nor `_`")
+        en2, v, payload = self.variant(a[1])
+        if en2 != en:
+            self.err(f"pattern {en2}::{v} in a match on {en}")
+        if len(a[2]) != len(payload):
+            self.err(f"pattern {en}::{v}: {len(a[2])} sub-patterns for {len(payload)} fields")
+        binds = {}
+        parts = []
+        for sp, pt in zip(a[2], payload):
+            if sp[0] == "wild":
+                parts.append("_")
+            else:
+                if sp[1] in binds:
+                    self.err(f"pattern {en}::{v}: duplicate binding")
+                binds[sp[1]] = pt
+                parts.append(sp[1])
+        return (f".{v} " + " ".join(parts)).strip(), binds
+
+    def tx_match_enum(self, s, arms, env, want, tail, wrap_some):
+        en = s.ty[1]
+        rows = []
+        ty = "any"
+        for alts, guard, body in arms:
+            if guard is not None:
+                self.err("guard in a match on an enum")
+            pats = [self.enum_pat(a, en) for a in alts]
+            b0 = pats[0][1]
+            if any(p[1] != b0 for p in pats):
+                self.err("or-pattern alternatives bind different names/types")
+            env2 = dict(env)
+            for x, t in b0.items():
+                env2[x] = (x, t)
+            v = self.wrap(body, env2, want, wrap_some, tail)
+            ty = self.unify(ty, v.ty, "match")
+            rows.append((" | ".join(p[0] for p in pats), v))
+        lines = [f"(match {s.lean} with"]
+        exl = [f"(match {s.lean} with"]
+        for p, v in rows:
+            val = v.lean if "\n" not in v.lean else "\n" + hdr_indent(v.lean, 4)
+            lines.append(f"  | {p} => {val}")
+            exl.append(f"  | {p} => {v.ex or 'true'}")
+        lines[-1] += ")"
+        exl[-1] += ")"
+        ex = "\n".join(exl) if any(v.ex is not None for _, v in rows) else None
+        return HV("\n".join(lines), ty, ex)
+
+    def tx_if(self, e, env, want, tail):
+        rows = []
+        ty = "any"
+        cur = e
+        while True:
+            c = self.tx(cur[1], env)
+            if c.ty != "bool":
+                self.err("`if` condition is not a boolean")
+            if c.ex is not None:
+                self.err("`if` condition with arithmetic that may overflow")
+            v = self.tx(cur[2], env, want, tail)
+            ty = self.unify(ty, v.ty, "if")
+            rows.append((c.lean, v))
+            if cur[3] is None:
+                self.err("`if` without `else` used as a value")
+            if cur[3][0] == "if":
+                cur = cur[3]
+                continue
+            if cur[3][0] != "block":
+                self.err("`else` branch")
+            v = self.tx(cur[3], env, want, tail)
+            ty = self.unify(ty, v.ty, "if")
+            rows.append((None, v))
+            break
+        return self.ite_chain(rows, ty)
+
+    def tx_iflet(self, e, env, want, tail):
+        pat, scrut, then, els = e[1], e[2], e[3], e[4]
+        s = self.pat_scrut(scrut, env)
+        if not (isinstance(s.ty, tuple) and s.ty[0] == "enum"):
+            self.err("if-let on a non-enum")
+        if els is None or els[0] != "block":
+            self.err("if-let without a plain else block")
+        return self.tx_match_enum(s, [([pat], None, then), ([("wild",)], None, els)], env, want, tail, False)
+
+    def early_return(self, st):
+        """`if c { return E; }` -> (c, E) else None"""
+        if st[0] == "if" and st[3] is None and st[2][0] == "block":
+            b = st[2]
+            r = None
+            if len(b[1]) == 1 and b[2] is None:
+                r = b[1][0]
+            elif not b[1] and b[2] is not None:
+                r = b[2]
+            if r is not None and r[0] == "return" and r[1] is not None:
+                return st[1], r[1]
+        return None
+
+    def tx_block(self, e, env, want, tail):
+        stmts, tl = e[1], e[2]
+        if tl is None:
+            self.err("block without a final value")
+        if stmts and not tail:
+            self.err("statements in a block that is not the function body")
+        rows = []
+        ty = "any"
+        for st in stmts:
+            er = self.early_return(st)
+            if er is None:
+                self.err(f"statement of kind `{st[0]}` (only `if c {{ return e; }}` is understood)")
+            c = self.tx(er[0], env)
+            if c.ty != "bool" or c.ex is not None:
+                self.err("early-return condition")
+            v = self.tx(er[1], env, want)
+            ty = self.unify(ty, v.ty, "early return")
+            rows.append((c.lean, v))
+        v = self.tx(tl, env, want, tail)
+        if not rows:
+            return v
+        ty = self.unify(ty, v.ty, "early return")
+        rows.append((None, v))
+        return self.ite_chain(rows, ty)
+
+    # --- writer functions: Result<(), _> with a sink parameter -> Option (List (value, width)); none = the
+    # function itself returns Err (sink errors are not modelled: the sink accepts everything)
+    def wr(self, e, env, sink):
+        k = e[0]
+        if k == "paren":
+            return self.wr(e[1], env, sink)
+        if k == "call" and e[1] == ("var", "Ok") and e[2] == [("unit",)]:
+            return HV("(some [])", "writes")
+        if k == "mcall" and e[2] == "map_err" and len(e[3]) == 1 and e[3][0][0] == "path":
+            return self.wr(e[1], env, sink)   # conversion of the sink's error type
+        if k == "mcall" and e[2] == "write_lsbs" and e[1] == ("var", sink) and len(e[3]) == 2:
+            v = self.tx(e[3][0], env)
+            n = self.tx(e[3][1], env, "usize")
+            if not hdr_is_int(v.ty):
+                self.err("write_lsbs of a value of unknown integer type")
+            c = None
+            if n.lit is None or n.lit > HDR_BITS[v.ty]:
+                c = f"decide ({n.lean} ≤ {HDR_BITS[v.ty]})"
+            return HV(f"(some [({v.lean}, {n.lean})])", "writes", hdr_and(v.ex, n.ex, c))
+        if k == "match":
+            s = self.pat_scrut(e[1], env)
+            if not (isinstance(s.ty, tuple) and s.ty[0] == "enum"):
+                self.err("writer: match on a non-enum")
+            en = s.ty[1]
+            lines = [f"(match {s.lean} with"]
+            exl = list(lines)
+            anyex = False
+            for alts, guard, body in e[2]:
+                if guard is not None:
+                    self.err("guard in a match on an enum")
+                pats = [self.enum_pat(a, en) for a in alts]
+                if any(p[1] != pats[0][1] for p in pats):
+                    self.err("or-pattern alternatives bind different names/types")
+                env2 = dict(env)
+                for x, t in pats[0][1].items():
+                    env2[x] = (x, t)
+                v = self.wr(body, env2, sink)
+                anyex = anyex or v.ex is not None
+                val = v.lean if "\n" not in v.lean else "\n" + hdr_indent(v.lean, 4)
+                lines.append(f"  | {' | '.join(p[0] for p in pats)} => {val}")
+                exl.append(f"  | {' | '.join(p[0] for p in pats)} => {v.ex or 'true'}")
+            lines[-1] += ")"
+            exl[-1] += ")"
+            return HV("\n".join(lines), "writes", "\n".join(exl) if anyex else None)
+        if k == "block":
+            items = list(e[1])
+            tl = e[2]
+            # value of the block: statements in order, then the tail (a block without tail has value `()`,
+            # which is only meaningful as a statement: it contributes no writes)
+            acc = self.wr(tl, env, sink) if tl is not None else HV("(some [])", "writes")
+            for st in reversed(items):
+                er = self.early_return(st)
+                if er is not None:
+                    c = self.tx(er[0], env)
+                    if c.ty != "bool" or c.ex is not None:
+                        self.err("writer: early-return condition")
+                    r = er[1]
+                    if not (r[0] == "call" and r[1] == ("var", "Err") and len(r[2]) == 1):
+                        self.err("writer: early return of something other than Err(..)")
+                    ex = None if acc.ex is None else f"(if {c.lean} then true else {acc.ex})"
+                    acc = HV(f"(if {c.lean} then none else\n{hdr_indent(acc.lean, 2)})", "writes", ex)
+                    continue
+                if st[0] == "try":
+                    v = self.wr(st[1], env, sink)
+                elif st[0] in ("match", "block"):
+                    v = self.wr(st, env, sink)
+                else:
+                    self.err(f"writer: statement of kind `{st[0]}`")
+                # exactness of what follows only matters when the step succeeded; over-approximated by `&&`
+                acc = HV(f"(seqW {v.lean}\n{hdr_indent(acc.lean, 2)})", "writes", hdr_and(v.ex, acc.ex))
+            return acc
+        self.err(f"writer: expression of kind `{k}`")
+
+
+def hdr_translate_fn(tx, items, rec, trait, owner):
+    """-> (lean name, [lean lines])"""
+    fname = items.fname
+    name = rec["name"]
+    lname = f"{owner}.{name}" if owner else name
+    tx.where = f"{fname}: fn {lname}"
+    tx.self_enum = owner
+    if rec["body"] is None:
+        tx.err("no body")
+    env = {}
+    lparams = []
+    ptys = []
+    sink = None
+    for p in rec["params"]:
+        if p in (["self"], ["&", "self"], ["mut", "self"]):
+            if owner is None:
+                tx.err("self parameter in a free function")
+            env["self"] = ("self", ("enum", owner))
+            lparams.append(f"(self : {owner})")
+            continue
+        if p[:3] == ["&", "mut", "self"]:
+            tx.err("&mut self")
+        if p and p[0] == "mut":
+            tx.err("mutable parameter")
+        if len(p) < 3 or p[1] != ":":
+            tx.err(f"parameter `{' '.join(p)}`")
+        pn, pt = p[0], p[2:]
+        if pt[:2] == ["&", "mut"] and len(pt) == 3 and pt[2] in rec["generics"]:
+            if sink is not None:
+                tx.err("two sink parameters")
+            sink = pn
+            continue
+        ty = tx.parse_type(pt)
+        if ty == "writes":
+            tx.err(f"parameter `{' '.join(p)}`")
+        env[pn] = (pn, ty)
+        ptys.append(ty)
+        lparams.append(f"({pn} : {tx.lean_type(ty)})")
+    if not rec["ret"]:
+        tx.err("no return type")
+    rty = tx.parse_type(rec["ret"])
+    lo, hi = rec["body"]
+    ps = HdrParser(items.toks, lo, hi, tx.where)
+    body = ps.block()
+    if ps.p != hi:
+        tx.err("trailing tokens after the body")
+    if rty == "writes":
+        if sink is None:
+            tx.err("Result<(), _> function without a sink parameter")
+        v = tx.wr(body, env, sink)
+    else:
+        if sink is not None:
+            tx.err("sink parameter in a function that does not return Result<(), _>")
+        v = tx.tx(body, env, rty, tail=True)
+        got = v.ty
+        ok = got == rty or got == "any" or (got is None and hdr_is_int(rty))
+        if isinstance(rty, tuple) and rty[0] == "opt" and isinstance(got, tuple) and got[0] == "opt":
+            try:
+                tx.unify(got, rty, "return value")
+                ok = True
+            except Unreadable:
+                ok = False
+        if not ok:
+            tx.err(f"body has type {got!r}, declared {rty!r}")
+    cfgs = [a for a in rec["attrs"] if a.startswith("#[cfg")]
+    sig = " ".join(lparams)
+    L = []
+    doc = f"`{(trait + ' for ') if trait else ''}{owner + '::' if owner else ''}{name}` ({fname})"
+    if cfgs:
+        doc += " " + " ".join(cfgs)
+    L.append(f"/-- {doc} -/")
+    L.append(f"def {lname} {sig} : {tx.lean_type(rty)} :=".replace("  :", " :"))
+    L.append(hdr_indent(v.lean, 2))
+    if v.ex is not None:
+        L.append("")
+        L.append(f"/-- `{lname}`: no arithmetic step overflows, underflows, divides by zero or reaches `unreachable!` "
+                 f"(then the `Nat` computation above is the Rust value; otherwise Rust panics or wraps). -/")
+        L.append(f"def {lname}_exact {sig} : Bool :=".replace("  :", " :"))
+        L.append(hdr_indent(v.ex, 2))
+    L.append("")
+    if owner is None:
+        tx.fn_sigs[name] = (ptys, rty, v.ex is not None)
+    return lname, L
+
+
+HDR_PRELUDE = '''/-- Effect of a `Result<(), _>` function that writes to a bit sink: `none` = the function itself returns
+`Err`; `some ws` = it wrote, in order, for every `(v, n)` in `ws` the `n` low bits of `v`
+(`BitSink::write_lsbs(v, n)`). Errors of the sink are not modelled. -/
+abbrev Writes := Option (List (Nat × Nat))
+
+/-- Sequencing of two writer steps (`a?; b`). -/
+def seqW (a b : Writes) : Writes := match a with | none => none | some x => (match b with | none => none | some y => some (x ++ y))
+
+/-- `Option::or_else`. -/
+def orElse {α : Type} (a : Option α) (b : Unit → Option α) : Option α := match a with | some v => some v | none => b ()
+
+/-- `bool::then`. -/
+def boolThen {α : Type} (c : Bool) (f : Unit → α) : Option α := if c then some (f ()) else none
+
+/-- `Option::<Option<_>>::flatten`. -/
+def flatten {α : Type} : Option (Option α) → Option α | some (some v) => some v | _ => none
+
+/-- `v.try_into().ok()` into an unsigned type of `bits` bits. -/
+def tryInto (bits v : Nat) : Option Nat := if v < 2 ^ bits then some v else none
+
+/-- `leading_zeros` of an unsigned value of `bits` bits. -/
+def leadingZeros (bits v : Nat) : Nat := if v = 0 then bits else bits - 1 - Nat.log2 v
+'''
+
+
+def emit_headers():
+    comp = os.path.join(REPO, "src", "component")
+    files = {}
+    for fn in sorted({s[0] for s in HDR_SPEC}):
+        path = os.path.join(comp, fn)
+        if not os.path.exists(path):
+            fail(f"{fn}: file not found")
+        files[fn] = HdrItems(fn, hdr_lex(open(path).read(), fn))
+    dt = files["datatype.rs"]
+    for en in HDR_ENUMS:
+        if en not in dt.enums:
+            fail(f"datatype.rs: enum {en} not found")
+    tx = HdrTx(dt.enums)
+    L = ["-- GENERATED by tools/translate.py from src/component/datatype.rs and src/component/bitrepr.rs — do not edit",
+         "/-",
+         "Arm-by-arm mirror of the frame-header code functions. Every `match` keeps the source order of its arms",
+         "(integer matches become `if … else if …` chains: the first matching arm wins, as in Rust; enum matches",
+         "become Lean matches with the same alternatives in the same order).",
+         "",
+         "Integers are modelled on `Nat`: `+ - * / % <<` are the `Nat` operations and `e as T` to a narrower `T` is",
+         "`e % 2^bits(T)`. This is the Rust value exactly when no step overflows or underflows; that condition is",
+         "emitted next to each function that has such a step as `<fn>_exact` (`a + b < 2^w`, `b ≤ a` for `a - b`,",
+         "shift amount `< w`, …; `unreachable!()` is `_exact = false`). The input domains (u8: < 256, u16: < 65536,",
+         f"u32: < 2^32; usize is taken as {HDR_BITS['usize']} bits) are NOT built in: the theorems about these functions carry them",
+         "as explicit hypotheses.",
+         "-/",
+         "set_option linter.unusedVariables false",
+         "namespace FlacVerif.Gen.Headers", "", HDR_PRELUDE]
+    for en in HDR_ENUMS:
+        vs = dt.enums[en]
+        L.append(f"/-- `enum {en}` (datatype.rs) -/")
+        L.append(f"inductive {en} where")
+        for v, payload, disc, explicit in vs:
+            args = " ".join(f"(a{i} : Nat)" for i, _ in enumerate(payload))
+            cm = ("  -- " + ", ".join(payload)) if payload else ""
+            L.append(f"  | {v} {args}".rstrip() + cm)
+        L.append("  deriving Repr, DecidableEq, Inhabited")
+        L.append("")
+        if all(not p for _, p, _, _ in vs):
+            L.append(f"/-- `{en} as <int>`: the discriminants ({'explicit' if any(x for _, _, _, x in vs) else 'implicit'} in the source) -/")
+            L.append(f"def {en}.discriminant : {en} → Nat")
+            for v, _, disc, _ in vs:
+                L.append(f"  | .{v} => {disc}")
+            L.append("")
+    done = set()
+    skipped = []
+    for fn, trait, owner, names in HDR_SPEC:
+        items = files[fn]
+        if owner is None:
+            table = items.fns
+            what = f"{fn}: free functions"
+        else:
+            if (trait, owner) not in items.impls:
+                fail(f"{fn}: impl {(trait + ' for ') if trait else ''}{owner} not found")
+            table = items.impls[(trait, owner)]
+            what = f"{fn}: impl {(trait + ' for ') if trait else ''}{owner}"
+        for name in names:
+            if name not in table:
+                fail(f"{what}: fn {name} not found")
+            lname, lines = hdr_translate_fn(tx, items, table[name], trait, owner)
+            if lname in done:
+                fail(f"{what}: two translated functions are both called {lname}")
+            done.add(lname)
+            L += lines
+        if owner is not None:
+            rest = [n for n in table if n not in names]
+            if rest:
+                skipped.append(f"{what}: {', '.join(rest)}")
+    L.append("/- Functions of the same impl blocks that are NOT translated (no theorem refers to them):")
+    for s in skipped:
+        L.append("   " + s)
+    L.append("-/")
+    L += ["", "end FlacVerif.Gen.Headers", ""]
+    return "\n".join(L)
+
+
 def main():
     """Each generated file is produced independently, so that a source file the translator cannot read
     breaks only the properties whose theorems are stated against that file. Status per part is written
@@ -910,6 +2494,13 @@ def main():
         status["tables"] = "ok"
     except Unreadable as e:
         status["tables"] = f"translator cannot read {e}"
+    try:
+        write("Headers.lean", emit_headers())
+        status["headers"] = "ok"
+    except Unreadable as e:
+        status["headers"] = f"translator cannot read {e}"
+    except Exception as e:  # fail closed on anything the parser did not anticipate
+        status["headers"] = f"translator cannot read datatype.rs/bitrepr.rs: internal error {type(e).__name__}: {e}"
     os.makedirs(os.path.join(ROOT, ".cache"), exist_ok=True)
     json.dump(status, open(os.path.join(ROOT, ".cache", "translate_status.json"), "w"), indent=1)
     bad = [v for v in status.values() if v != "ok"]
